@@ -44,3 +44,7 @@ class Client:
 
     async def publish(self, topic, properties=None, **kw):
         self.sent.append((topic, properties, kw))
+        # a publish that completes later (QoS 1: after the broker's acknowledgement): the requester stays suspended here
+        # for a few event-loop iterations while responses may already arrive
+        for _ in range(getattr(self, "publish_yields", 0)):
+            await asyncio.sleep(0)
